@@ -189,6 +189,20 @@ int main(int argc, char** argv) {
       try { for (long long i = 1; i <= L; i++) { if (i > 1) ev_s(","); item(get(v, $I(-i))); } } catch (e) { if (!exc[0]) exc = exc_name(e); ev_s(",-888888"); }
       ev_s("]"); ev_int("hasgetn", 1);
     } else { ev_s("]"); ev_int("hasgetn", 0); }
+    /* positions outside the view: one past either end, further out, far out - each must be refused with the documented
+       exception (never answered with an element from outside the view) */
+    ev_key("oob"); ev_s("[");
+    int zip0 = 0; for (int w = 1; w + 1 < hc_nw; w++) if (hc_is(w, "Z") && hc_is(w + 1, "0")) zip0 = 1;   /* a Zip of nothing has no inputs that could refuse a position */
+    if (gotget && !zip0) {
+      long long cand[6] = { L, L + 1, 1000000, -L - 1, -L - 2, -1000000 };
+      int nc = (type_of(v) == Zip || type_of(v) == Map) ? 3 : 6;        /* negative positions only where the view defines them */
+      for (int i = 0; i < nc; i++) {
+        const char* x = "none";
+        try { var r = get(v, $I(cand[i])); (void)r; } catch (e) { x = exc_name(e); }
+        if (i) ev_s(","); ev_s("["); ev_i(cand[i]); ev_s(",\""); ev_s(x); ev_s("\"]");
+      }
+    }
+    ev_s("]");
     /* membership: mem(view, x) for a few integers, where the view implements it and yields Ints (not tuples) */
     { static const int64_t probes[] = { 0, 1, 2, 3, 4, 5, 6, 7, 9, 10, 12, 16, 18, 101, 104, 106 };   /* non-negative: a Range reads a negative key as a position from its end */
       int istup = (type_of(v) == Zip); { var t = v; while (type_of(t) == Map || type_of(t) == Filter || type_of(t) == Slice) { t = type_of(t) == Slice ? ((struct Slice*)t)->iter : type_of(t) == Map ? ((struct Map*)t)->iter : ((struct Filter*)t)->iter; if (type_of(t) == Zip) istup = 1; } }
